@@ -5,6 +5,7 @@
    [trace_corr] folds Model.Tcp.step over the same events and reports the first divergence. *)
 From Coq Require Import ZArith List Bool.
 From NP Require Import Model.Seqnum Model.Tcp.
+From NP Require Model.TcpHs Model.TcpEst.
 Import ListNotations.
 Open Scope Z_scope.
 
@@ -68,8 +69,31 @@ Fixpoint trace_corr_from (k : Z) (t : tcp) (steps : list obs) : Z :=
       else trace_corr_from (k + 1) t' rest
   end.
 
+(* the state the connection starts from, computed by the handshake model (Model/TcpHs.v) and the
+   transfer function (Model/TcpEst.v) from the script's configuration:
+   cfg = [iss; irs; peer MSS; link MTU (0 = 1500); IPv6?; window field of the SYN-ACK; the SYN-ACK's
+          window-scale option (-1 = absent); SYN-ACK carries timestamps?; SACK-permitted?; the stack's
+          SYN offered SACK?; receive buffer size; send buffer size] *)
+Definition expected_init (cfg : list Z) : option tcp :=
+  let g := fun i => nth i cfg 0 in
+  let o := TcpHs.mkSO (g 2%nat) (g 6%nat) (negb (g 7%nat =? 0)) (negb (g 8%nat =? 0)) in
+  TcpEst.active_established (g 0%nat) (g 1%nat) (g 5%nat) o (negb (g 9%nat =? 0)) (g 10%nat) (g 11%nat)
+                            (if g 3%nat =? 0 then 1500 else g 3%nat) (if g 4%nat =? 0 then 20 else 40).
+
+(* 1 = the first snapshot is not the state the handshake model establishes (only judged when the
+   case carries the full configuration) *)
+Definition init_corr (cfg : list Z) (init : tcp) : Z :=
+  if Nat.ltb (length cfg) 12 then 0
+  else match expected_init cfg with
+       | Some t => if zlist_eqb (encT t) (encT init) then 0 else 1
+       | None => 1
+       end.
+
 Definition trace_corr (c : case) : Z :=
-  match c with CTrace _ _ init steps => trace_corr_from 1 init steps end.
+  match c with
+  | CTrace cfg _ init steps =>
+      if init_corr cfg init =? 0 then trace_corr_from 1 init steps else 1
+  end.
 
 (* ---- helpers for the spec monitors (independent of the model's step function) ---- *)
 
